@@ -32,7 +32,8 @@ def networks(tags, names=None):
     out = {}
 
     def sp(label, chstt=False, Dz=False):
-        D = {"e0": t(), "e1": (0 if Dz else t())} if label != "C" else t()
+        # species B relies on the 'default' fallback of its per-environment dictionary for e1 (A lists every environment, C is a scalar)
+        D = {"e0": t(), ("default" if label == "B" else "e1"): (0 if Dz else t())} if label != "C" else t()
         return Species(label, D=D, density={"e0": t(), "default": t()}, chstt=chstt)
 
     out["AB_rev"] = lambda: RDNetwork(
